@@ -93,6 +93,56 @@ theorem yOps_admissible : Admissible idLt (xEnv, {}) yOps := by
     wf_withCell w1 0 _ true false (fun _ => ⟨trivial, trivial, trivial⟩)
   exact ⟨w0, w0, w0, w1, w1, w2, w2, trivial⟩
 
+/-! a flag edit keeps the regime; a formula edit keeps it when the new formula is in it -/
+
+theorem wf_withCached {env : Env} {lt : Node → Node → Prop} (h : WF env lt) (c : CellId) (b : Bool) :
+    WF (env.withCached c b) lt := ⟨h.ranked, h.noCatch, h.scoping⟩
+
+theorem wf_withFormula {env : Env} {lt : Node → Node → Prop} (h : WF env lt) (c : CellId) (f : Key → Prog)
+    (hf : ∀ k, CallsBelow lt (c, k) (f k) ∧ NoCatch (f k) ∧ NameReadsIn (fun r => c ∈ env.observers r) (f k)) :
+    WF (env.withFormula c f) lt := by
+  refine ⟨?_, ?_, ?_⟩
+  · intro n
+    show CallsBelow lt n (if n.1 = c then f n.2 else env.formula n)
+    split
+    · rename_i hn
+      have : n = (c, n.2) := by rw [← hn]
+      rw [this]; exact (hf n.2).1
+    · exact h.ranked n
+  · intro n
+    show NoCatch (if n.1 = c then f n.2 else env.formula n)
+    split
+    · exact (hf n.2).2.1
+    · exact h.noCatch n
+  · intro n
+    show NameReadsIn (fun r => n.1 ∈ env.observers r) (if n.1 = c then f n.2 else env.formula n)
+    split
+    · rename_i hn; rw [hn]; exact (hf n.2).2.2
+    · exact h.scoping n
+
+/-- the new formula of `c3`: `c3() = c0(1)` -/
+def zK : Res → Prog
+  | .ok v => .ret v
+  | .err e => .reraise e
+
+def zF : Key → Prog := fun _ => .call (0, [.int 1]) zK
+
+/-- a history with a switch of `is_cached` (the uncached `c1` becomes cached) and a FORMULA EDIT (of
+`c3`) between evaluations and a reference edit -/
+def zOps : List Op :=
+  [.eval (3, []), .setCached 1 true, .eval (3, []), .setFormula 3 zF, .eval (3, []), .setRef 0 (.int 7),
+   .eval (3, [])]
+
+theorem zOps_admissible : Admissible idLt (xEnv, {}) zOps := by
+  have w0 := xEnv_wf
+  have w1 : WF (xEnv.withCached 1 true) idLt := wf_withCached w0 1 true
+  have w2 : WF ((xEnv.withCached 1 true).withFormula 3 zF) idLt :=
+    wf_withFormula w1 3 zF (fun _ => ⟨⟨by show (0 : Nat) < 3; omega, fun r => by cases r <;> trivial⟩,
+      ⟨fun _ => trivial, fun r => by cases r <;> trivial⟩, fun r => by cases r <;> trivial⟩)
+  have w3 : WF (((xEnv.withCached 1 true).withFormula 3 zF).withRef 0 (some (.int 7))) idLt :=
+    wf_withRef w2 0 _
+  exact ⟨w0, w1, w1, w2, w2, w3, w3, trivial⟩
+
 def cCells : CellId → Option Expr
   | 0 => some (.ite (.lt (.readN 0) (.lit 1)) (.raise kValue) (.readN 0))
   | 1 => some (.try_ (.call 0 []) .all (.lit (-1)))
